@@ -395,7 +395,6 @@ RDecode(t, bits) ==
         ELSE << t.son[a[1] + bits[a[2] + 1]], a[2] + 1, 0 >>
       r == FoldLeft(step, << t.son[RRoot(t.nc)], 0, 0 >>, Ix(Len(bits) + 1))
   IN [ok |-> r[3] = 1, sym |-> IF r[3] = 1 THEN r[1] - T ELSE 0, used |-> r[2]]
-================================================================================
 \* =====================================================================================
 \* CORRESPONDENCE
 \* =====================================================================================
@@ -418,4 +417,4 @@ FullLock(rr, gg, sample) ==
               /\ (i # 0 => nd.parent = rt - rr.prnt[k])
      /\ \A c \in 0..(nc - 1) : gg.leaf_nodes[c] = rt - rr.prnt[t + c]
      /\ \A s \in sample : tab[s] # NoCode /\ tab[s] = RCode(rr, s)
-=====
+=====================================================================================
